@@ -248,10 +248,7 @@ Definition decode_tunnelled_query (r : wire) : dres :=
                        end
               end
           end
-        else                                                                                             (* :116-117 *)
-          DOk {| d_method := tm; d_path := w_path r; d_rawquery := []; d_uri := uri_of (w_path r) (w_rawquery r);
-                 d_ct := match opt_nonempty (w_ct r) with Some _ => None | None => w_ct r end;
-                 d_override := None; d_other := w_other r; d_body := None |}
+        else DErr                                                                                        (* :116-118: any other / no content type *)
   end.
 
 (* what the server sees for a request that was sent without tunnelling *)
